@@ -71,6 +71,20 @@ def cases(tier, seed):
         if 1000 <= local_year <= 9999:    # the rendered local date must itself lie in years 1000..9999
             add('$toMillis($fromMillis(%d, (), "%s")) = %d' % (ms, tz, ms), None, ('law', 'law-total', 'inverse'))
         add('$toMillis($fromMillis(%d)) = %d' % (ms, ms), None, ('law', 'law-total', 'inverse'))
+    # ordinal modifier: every value a component can take (day of year 1..366, day 1..31, month, hour, minute, second, week,
+    # years incl. those ending in 11/12/13 and 111..113), against the English ordinal suffix computed here
+    def ordinal(k):
+        return '%d%s' % (k, 'th' if 10 <= k % 100 <= 20 else {1: 'st', 2: 'nd', 3: 'rd'}.get(k % 10, 'th'))
+    for doy in range(1, 367):
+        dt = datetime.datetime(2020, 1, 1) + datetime.timedelta(days=doy - 1)
+        ms = ms_of(dt.year, dt.month, dt.day, 12, doy % 60, (doy * 7) % 60)
+        add('$fromMillis(%d, "[d1o]|[D1o]|[M1o]") = "%s|%s|%s"' % (ms, ordinal(doy), ordinal(dt.day), ordinal(dt.month)), None, ('law', 'law-total', 'ordinal'))
+        if doy <= 60:
+            ms2 = ms_of(2021, 3, 4, doy % 24, doy - 1, (doy * 7) % 60)
+            add('$fromMillis(%d, "[H1o]|[m1o]|[s1o]") = "%s|%s|%s"' % (ms2, ordinal(doy % 24), ordinal(doy - 1), ordinal((doy * 7) % 60)), None, ('law', 'law-total', 'ordinal'))
+    for y in list(range(1000, 1030)) + list(range(1100, 1125)) + list(range(2000, 2035)) + [2111, 2112, 2113, 3011, 4012, 5013, 9911, 9912, 9913, 9999, 1211, 1312, 1413]:
+        add('$fromMillis(%d, "[Y1o]") = "%s"' % (ms_of(y, 6, 15, 0, 0, 0), ordinal(y)), None, ('law', 'law-total', 'ordinal'))
+        add('$fromMillis(%d, "[Y1o,*-2]|[W1o]|[F1o]")' % ms_of(y, 6, 15, 0, 0, 0), None, ('ordinal',))
     # 12-hour clock at every hour
     for h in range(24):
         add('$fromMillis(%d, "[h]:[m01] [P] / [H01]")' % ms_of(2020, 6, 15, h, 7), None, ('hour12',))
@@ -138,6 +152,6 @@ def now_concurrent(ck, part, res):
 def run(tier, seed, replay=None):
     return simple_run('C19', tier, seed, replay,
         'instants: day boundaries (+/-1 ms, random time of day) on a stride over 1000-01-01..9999-12-31, all 24 hours on leap days, year ends and ISO-week edge years, negative and post-2262 instants; '
-        'offsets -1400..+1400 in 15-minute steps and malformed ones; default picture and $toMillis inverse; every component letter x presentation/width modifier; 12-hour clock at every hour; '
+        'offsets -1400..+1400 in 15-minute steps and malformed ones; default picture and $toMillis inverse; every component letter x presentation/width modifier; the ordinal modifier on every value of every component (days of year 1..366, years incl. ..11/..12/..13); 12-hour clock at every hour; '
         'fixed-width pictures and their inverse; malformed pictures and texts; $now/$millis identities (also on 8 goroutines under the race detector); calendar inputs computed with Python datetime (independent); distinct = distinct expression',
         cases, timeout_ms=3000, post=now_concurrent)
